@@ -115,6 +115,85 @@ for i in 6 {
 }
 println(keep)
 """, "[ [ m0, n0 ], [ m1, n1 ], [ m2, n2 ], [ m3, n3 ], [ m4, n4 ], [ m5, n5 ] ]\n"),
+    # a channel handle is itself a heap value: the reader's copy must outlive the sending task
+    "channel-in-message-sender-finishes": ("""let registry: channel<channel<int>> = channel()
+task {
+  let mine: channel<int> = channel()
+  mine.write(10)
+  mine.write(20)
+  registry.write(mine)
+}
+let got = registry.read()
+var spin = 0
+for i in 300 { spin += i }
+let other: channel<int> = channel()
+other.write(1)
+other.write(2)
+let junk = [[spin], [spin, 1], [spin, 2]]
+println(got.read())
+println(got.read())
+got.write(30)
+println(got.read())
+println(other.read())
+""", "10\n20\n30\n1\n"),
+    "reply-channel-sender-finishes": ("""let req: channel<(int, channel<string>)> = channel()
+task {
+  let (n, reply) = req.read()
+  reply.write("r" .. n)
+  reply.write("s" .. n)
+}
+for k in 3 {
+  task {
+    let mine: channel<string> = channel()
+    mine.write("pre" .. k)
+    req.write((k, mine))
+  }
+}
+let done: channel<int> = channel()
+var spin = 0
+while spin < 400 { spin += 1 }
+println(spin)
+""", "400\n"),
+    "channels-inside-array-and-struct": ("""type Box = {
+  tag: int
+  ch: channel<array<int>>
+}
+let c: channel<array<Box>> = channel()
+task {
+  let a: channel<array<int>> = channel()
+  let b: channel<array<int>> = channel()
+  a.write([1, 2])
+  b.write([3])
+  b.write([4, 5, 6])
+  c.write([Box(1, a), Box(2, b)])
+}
+let boxes = c.read()
+var spin = 0
+while spin < 300 { spin += 1 }
+let junk = [[spin], [spin]]
+println(boxes[0].tag .. " " .. boxes[0].ch.read())
+println(boxes[1].tag .. " " .. boxes[1].ch.read())
+println(boxes[1].ch.read())
+""", "1 [ 1, 2 ]\n2 [ 3 ]\n[ 4, 5, 6 ]\n"),
+    "channel-forwarded-through-two-tasks": ("""let first: channel<channel<string>> = channel()
+let second: channel<channel<string>> = channel()
+task {
+  let mine: channel<string> = channel()
+  mine.write("a" .. 1)
+  mine.write("b" .. 2)
+  first.write(mine)
+}
+task {
+  let got = first.read()
+  second.write(got)
+}
+let got = second.read()
+var spin = 0
+while spin < 300 { spin += 1 }
+let pad = ["p" .. spin, "q" .. spin]
+println(got.read())
+println(got.read())
+""", "a1\nb2\n"),
 }
 
 
